@@ -1,7 +1,9 @@
-(* Lemmas about the reference Redis model (Model/Redis.v). *)
+(* Lemmas about the reference Redis model (Model/Redis.v): C01 laws (reachable-state invariant,
+   deadline visibility, empty collections vanish, key locality) and the C17 laws (a command that
+   replies an error changes nothing; a read-only command changes nothing). *)
 From stdpp Require Import gmap.
-From Coq Require Import ZArith NArith Lia.
-From RV Require Import Lib.Hex Model.Redis.
+From Coq Require Import ZArith NArith Lia String.
+From RV Require Import Lib.Hex Model.Redis Gen.ReadOnly.
 Local Open Scope Z_scope.
 
 (* ------------------------------------------------------------------ advance / deadlines *)
@@ -16,7 +18,7 @@ Proof.
 Qed.
 
 (* a key with deadline d is visible at every instant t < d and at no instant t >= d;
-   a key without deadline is visible at every instant *)
+   a key without deadline is visible at every instant; nothing appears *)
 Lemma visible_iff_before_deadline_lemma (s : gmap (list N) (value * option N)) k v :
   (∀ d t, s !! k = Some (v, Some d) →
      ((t < d)%N → advance s t !! k = Some (v, Some d)) ∧ ((d <= t)%N → advance s t !! k = None)) ∧
@@ -27,3 +29,134 @@ Proof.
   - destruct (N.ltb_spec t d); [reflexivity | lia].
   - destruct (N.ltb_spec t d); [lia | reflexivity].
 Qed.
+
+(* ------------------------------------------------------------------ upd / on_key *)
+
+Lemma upd_lookup (s : gmap (list N) (value * option N)) k oe : upd s k oe !! k = oe.
+Proof. destruct oe; simpl; [apply lookup_insert | apply lookup_delete]. Qed.
+Lemma upd_lookup_ne (s : gmap (list N) (value * option N)) k oe k' : k ≠ k' → upd s k oe !! k' = s !! k'.
+Proof. intros. destruct oe; simpl; [by apply lookup_insert_ne | by apply lookup_delete_ne]. Qed.
+Lemma upd_id (s : gmap (list N) (value * option N)) k : upd s k (s !! k) = s.
+Proof. destruct (s !! k) eqn:E; simpl; [by apply insert_id | by apply delete_notin]. Qed.
+
+(* ------------------------------------------------------------------ per-command lemmas *)
+
+Ltac unfold_cmds :=
+  unfold c_get, c_set, c_setnx, c_append, c_getset, c_strlen, c_getrange, c_setrange, c_getex, c_getdel,
+         c_decrby, c_incrby, c_type, c_expire, c_pexpire, c_expireat, c_pexpireat, c_expire_at, c_ttl, c_persist,
+         c_push, c_pop, c_llen, c_lindex, c_lrange, c_lset, c_ltrim,
+         c_sadd, c_srem, c_smembers, c_sismember, c_scard,
+         c_hset, c_hget, c_hdel, c_hgetall, c_hkeys, c_hvals, c_hlen, c_hexists, c_hincrby,
+         c_zadd, c_zrem, c_zscore, c_zrank, c_zcard, c_zcount, c_zrange, c_zrangebyscore,
+         old_str, ROk, RNil, RB in *.
+
+Ltac crush_err :=
+  intros; repeat (simpl in *; first [ discriminate | reflexivity | case_match ]).
+
+(* every single-key command: an error reply means the entry at the key is untouched *)
+Lemma key_fun_err now c k f oe :
+  key_fun now c = Some (k, f) → is_error (f oe).2 = true → (f oe).1 = oe.
+Proof.
+  destruct c; simpl; intros H; inversion H; subst; clear H; unfold_cmds; crush_err.
+Qed.
+
+Definition oentry_ok (now : N) (oe : option (value * option N)) : Prop :=
+  match oe with Some e => entry_ok now e | None => True end.
+
+Lemma mk_ok now v d :
+  match d with Some t => (now < t)%N | None => True end → oentry_ok now (mk v d).
+Proof. unfold mk. destruct (value_nonempty v) eqn:E; simpl; [|done]. intros. split; done. Qed.
+
+Lemma with_deadline_ok now v w : value_nonempty v = true → oentry_ok now (with_deadline now v w).
+Proof.
+  unfold with_deadline. intros Hv. destruct (Z.leb_spec w (Z.of_N now)); simpl; [done|].
+  split; simpl; [done | lia].
+Qed.
+
+Ltac crush_ok :=
+  repeat (simpl in *; first
+    [ done
+    | apply mk_ok; done
+    | apply with_deadline_ok; done
+    | match goal with H : entry_ok _ _ |- _ => destruct H as [? ?] end
+    | match goal with |- entry_ok _ _ => split end
+    | case_match; simplify_eq ]).
+
+Lemma nonempty_linsert j (v : list N) l : value_nonempty (VList (<[j:=v]> l)) = value_nonempty (VList l).
+Proof. destruct l; [done|]. destruct j; done. Qed.
+Lemma nonempty_hinsert (h : gmap (list N) (list N)) f x : value_nonempty (VHash (<[f:=x]> h)) = true.
+Proof.
+  simpl. destruct (map_to_list (<[f:=x]> h)) eqn:E; [|done].
+  apply map_to_list_empty_iff in E. by apply insert_non_empty in E.
+Qed.
+
+(* every single-key command keeps "no empty collection, deadline in the future" at its key *)
+Lemma key_fun_ok now c k f oe :
+  key_fun now c = Some (k, f) → oentry_ok now oe → oentry_ok now (f oe).1.
+Proof.
+  destruct c; simpl; intros H; inversion H; subst; clear H; unfold_cmds; intros Hok.
+  all: try (destruct oe as [[v d]|]; crush_ok; fail).
+  all: try (destruct oe as [[[] ?]|]; crush_ok; fail).
+  - (* LSET *)
+    destruct oe as [[[] ?]|]; try done. destruct Hok as [Hn Hd]. simpl in *.
+    destruct (norm_index _ _); simpl; [|done]. split; [|done]. simpl fst. by rewrite nonempty_linsert.
+  - (* HINCRBY *)
+    destruct oe as [[[] ?]|]; try done.
+    + destruct Hok as [Hn Hd]. unfold hincr. simpl.
+      destruct (match h !! f0 with Some b => parse_i64 b | None => Some 0 end); simpl; [|done].
+      destruct (in_i64 _); simpl; [|done]. split; [apply nonempty_hinsert | done].
+    + simpl. split; [|done]. unfold singletonM, map_singleton. apply nonempty_hinsert.
+Qed.
+
+(* the key a single-key command works on does not depend on the clock *)
+Lemma key_fun_key now now' c k f :
+  key_fun now c = Some (k, f) → ∃ f', key_fun now' c = Some (k, f').
+Proof. destruct c; simpl; intros H; inversion H; subst; eauto. Qed.
+
+(* ------------------------------------------------------------------ C17: errors change nothing *)
+
+Lemma c_rename_err s a b nx : is_error (c_rename s a b nx).2 = true → (c_rename s a b nx).1 = s.
+Proof. unfold c_rename, ROk. crush_err. Qed.
+Lemma c_lmove_err s a b fl tl : is_error (c_lmove s a b fl tl).2 = true → (c_lmove s a b fl tl).1 = s.
+Proof. unfold c_lmove, RNil, RB. crush_err. Qed.
+
+Theorem error_no_effect_lemma : ∀ s now c,
+  is_error (exec s now c).2 = true → (exec s now c).1 = s.
+Proof.
+  intros s now c. unfold exec. destruct (cmd_reject c); [done|].
+  unfold exec_wf. destruct (key_fun now c) as [[k f]|] eqn:K.
+  - unfold on_key. destruct (f (s !! k)) as [oe r] eqn:F. simpl. intros Hr.
+    pose proof (key_fun_err now c k f (s !! k) K) as He. rewrite F in He. simpl in He.
+    rewrite (He Hr). apply upd_id.
+  - destruct c; simpl in K; try discriminate; simpl; try done.
+    + destruct (existsb _ _); done.
+    + destruct (del_all s ks); done.
+    + apply c_rename_err.
+    + apply c_rename_err.
+    + apply c_lmove_err.
+    + apply c_lmove_err.
+Qed.
+
+(* ------------------------------------------------------------------ C17: read-only commands *)
+
+Lemma key_fun_ro now c k f oe :
+  key_fun now c = Some (k, f) → ro_impl (tag c) = true → (f oe).1 = oe.
+Proof.
+  destruct c; simpl; intros H R; try (vm_compute in R; discriminate R);
+    inversion H; subst; clear H R; unfold_cmds; repeat case_match; reflexivity.
+Qed.
+
+Theorem read_only_no_effect_lemma : ∀ s now c,
+  ro_impl (tag c) = true → (exec s now c).1 = s.
+Proof.
+  intros s now c R. unfold exec. destruct (cmd_reject c); [done|].
+  unfold exec_wf. destruct (key_fun now c) as [[k f]|] eqn:K.
+  - unfold on_key. destruct (f (s !! k)) as [oe r] eqn:F. simpl.
+    pose proof (key_fun_ro now c k f (s !! k) K R) as He. rewrite F in He. simpl in He.
+    rewrite He. apply upd_id.
+  - destruct c; simpl in K; try discriminate; try (vm_compute in R; discriminate R); done.
+Qed.
+
+(* every model command is carried by a variant of the Rust enum Command *)
+Lemma tag_is_variant c : In (tag c) command_variants.
+Proof. destruct c; vm_compute; tauto. Qed.
